@@ -9,6 +9,7 @@ from .isomsg import *
 from .decode import *
 
 PROPERTY = 'C07'
+PYTHON_O = ['msg/single/latin_1/bin', 'msg/pds-carrier/DE48', 'msg/icc/DE55', 'file/ipm/blocked']      # obligations that are also explored with the modules compiled as under python -O
 ASSUMPTIONS = [
     'message = (concrete or opaque) MTI + bitmap from a family (configured singles/pairs, unconfigured bits; hex bitmap either valid or 32 opaque '
     'characters for which unhexlify raises binascii.Error, its documented behaviour) + opaque data of symbolic length',
